@@ -113,3 +113,22 @@ claim("C16",
       MULTI_TB + "Partial: that every handler call happens under the command lock is observed through the histories (and the race detector in the thorough tier), not derived statically; "
       "the Go scheduler decides which interleavings occur.",
       "Coq-verified linearizability checker (extracted) judging recorded concurrent histories + theorem for atomic execution and refutation without it")
+STORE_TB = CONN_TB + ("The reference is Redis.dprim (transcribed from the Redis command reference, itself unverified), run under the same connection model; replies Redis leaves "
+                      "unordered are sorted and scores compared as exact numbers before comparison. ")
+claim("C12",
+      "Theorems (the derived executors of the model over the Redis reference primitives, for ALL databases and argument values): GETRANGE/SUBSTR never panic and reply with Redis' "
+      "clamped substring for every length/start/end in int64; ZREVRANGE is exactly the descending-order slice with member/score pairs intact (index reflection proved over all of Z); "
+      "INCR/DECR/INCRBY/DECRBY store and reply old+delta iff the value is a canonical int64 numeral and the sum stays in int64, else error and nothing stored; MSETNX is all-or-nothing; "
+      "MGET replies in request order; STRLEN, APPEND, HKEYS/HVALS (same pairs, same order)/HLEN, HEXISTS/HSTRLEN, SCARD, SISMEMBER, ZCARD, PING, ECHO, CONFIG SET/GET (request order, "
+      "last stored value). Correspondence: framework + bundled example store through the real loop vs the model: GETRANGE lengths 0..6 x start,end -9..9 and ZREVRANGE sizes 0..5 x "
+      "start,stop -7..7 with/without scores (exhaustive), ZREVRANGEBYSCORE LIMIT grids, counters at int64 boundaries and on non-integers, random programs with final-state probes.",
+      STORE_TB + "MSET/HMSET/HMGET/ZREVRANGEBYSCORE have no general theorem yet (correspondence only).",
+      "Coq theorems (derived executors over reference primitives = Redis semantics) + exhaustive index grids against framework + example store")
+claim("C18",
+      "Theorems about the reference model the example server is compared with, for EVERY database and operation: every primitive operation (hence every program) preserves the invariant "
+      "- keys unique, one entry per hash field / set member / sorted-set member, sorted sets in non-decreasing score order, no empty container stored; values come back byte for byte "
+      "and other keys are untouched; RPUSH/LPUSH/LRANGE/LPOP order; EXISTS/DEL/RENAME (moves; onto itself keeps). Correspondence: the bundled example server through the real connection "
+      "loop vs the model on every program of length 1 and 2 (and sampled / all of length 3) per data type over a small pool, random programs to length 40, mixed-type programs, each "
+      "followed by a final-state probe of every pool key.",
+      STORE_TB + "The example store's Go code is not modelled function by function: the tie is the differential run. Two reply shapes the handler interface cannot express are recorded findings.",
+      "Coq invariant proof over all programs of the reference model + exhaustive short-program differential runs against the example server")
